@@ -291,7 +291,7 @@ func genReject(t *rapid.T) C07Reject {
 var c07Reject = pbt.Register(pbt.Prop[C07Reject]{
 	Name: "C07Reject", Gen: genReject, Check: c07CheckReject,
 	Classify: func(c C07Reject) (bool, []string, []byte) { return true, []string{"reject_" + c.Class}, nil },
-	Quick: 6000, Thorough: 100000,
+	Quick:    6000, Thorough: 100000,
 })
 
 func TestC07Reject(t *testing.T) { pbt.Run(t, c07Reject) }
